@@ -24,7 +24,7 @@ UNIT = Unit(
            injects=[Inject("entry", "proof { lemma_pow2_100(difficulty as nat); let ds = dosc_speed as int; assert(ds * ds * 2880 > 0) by (nonlinear_arith) requires ds > 0; }")]),
         Fn(A, "compute_doscmint_speed", home="C18", implicit_props=("C09", "C18"),
            requires=[C("diff", "difficulty <= 100"), C("older", "state_height.0 > coin_height.0")],
-           ensures=[C("formula", "res as int == spec_speed(is_tip910, difficulty as nat, state_height.0 - coin_height.0)", "C18", char=True)],
+           ensures=[C("formula", "res as int == spec_speed(is_tip910, difficulty as nat, state_height.0 - coin_height.0)", "C18", "C01", char=True)],
            injects=[Inject("entry", "proof { lemma_pow2_100(difficulty as nat); }")]),
         Fn(A, "check_dosc_total_output", home="C18", implicit_props=("C09", "C18"),
            requires=[C("fit", "outputs_fit(*tx)")],
